@@ -137,22 +137,36 @@ def process_spec(job):
     valid_sds = G.all_valid(s)
     members = {G.freeze(G.normalize(sd)) for sd in valid_sds}
     # (0) iteration, size, sweeping
-    L = list(pg.iter_dna())
-    sw = geno.Sweeping(); sw.setup(pg)
-    swl = []
+    ERR = [-2]          # the outcome of an operation that raised where the model says it cannot: never equal to a model outcome
     try:
-      for _ in range(len(L) + 2): swl.append(sw.propose())
-    except StopIteration:
-      pass
+      L = list(pg.iter_dna())
+    except Exception as e:   # pylint: disable=broad-except
+      ctx.hit('C11/iteration-raises/%s' % mode_key(s), 'iter_dna raises %s: %s for %s' % (type(e).__name__, str(e)[:100], sdesc), dict(op='iter', spec=s))
+      L = None
+    swl = []
+    if L is not None:
+      try:
+        sw = geno.Sweeping(); sw.setup(pg)
+        try:
+          for _ in range(len(L) + 2): swl.append(sw.propose())
+        except StopIteration:
+          pass
+      except Exception as e:   # pylint: disable=broad-except
+        ctx.hit('C11/sweeping-raises/%s' % mode_key(s), 'Sweeping raises %s for %s' % (type(e).__name__, sdesc), dict(op='iter', spec=s)); swl = None
     size = pg.space_size
-    add([0, str_, P['limit'] + 5], [trlib.opt(None if size == -1 else size), [G.tree_tr(G.dna_to_tree(d)) for d in L],
-                                    [G.tree_tr(G.dna_to_tree(d)) for d in swl]], dict(op='iter', spec=sdesc))
+    if L is None or swl is None:
+      add([0, str_, P['limit'] + 5], ERR, dict(op='iter', spec=sdesc))
+    else:
+      add([0, str_, P['limit'] + 5], [trlib.opt(None if size == -1 else size), [G.tree_tr(G.dna_to_tree(d)) for d in L],
+                                      [G.tree_tr(G.dna_to_tree(d)) for d in swl]], dict(op='iter', spec=sdesc))
     ctx.count(('iter', trlib.to_line(str_)), nontrivial=nontriv, kind='iter',
               sample=dict(op='iter', spec=sdesc, space_size=size, first=str(L[0]) if L else None, last=str(L[-1]) if L else None) if nontriv and si % 7 == 0 else None)
     # (7) the specification list itself against the oracle's independent enumeration
     add([7, str_, P['limit'] + 5], [[G.tree_tr(G.normalize(sd)) for sd in valid_sds]], dict(op='all_valid', spec=sdesc))
     ctx.count(('all_valid', trlib.to_line(str_)), nontrivial=nontriv, kind='all_valid')
-    oracle_iter(ctx, s, pg, L, swl, size, valid_sds, members, sdesc); ctx.oracle += 1
+    if L is not None and swl is not None:
+      oracle_iter(ctx, s, pg, L, swl, size, valid_sds, members, sdesc)
+    ctx.oracle += 1
   else:
     size = pg.space_size
     add([0, str_, 0], [trlib.opt(None if size == -1 else size), [], []], dict(op='size', spec=sdesc))
@@ -162,7 +176,11 @@ def process_spec(job):
   has_custom = 'custom' in mode_key(s)
   # (5) first_dna
   if not has_custom:
-    add([5, str_], [G.tree_tr(G.dna_to_tree(pg.first_dna()))], dict(op='first', spec=sdesc))
+    try:
+      out = [G.tree_tr(G.dna_to_tree(pg.first_dna()))]
+    except Exception as e:   # pylint: disable=broad-except
+      ctx.hit('C11/first-raises/%s' % mode_key(s), 'first_dna raises %s: %s for %s' % (type(e).__name__, str(e)[:100], sdesc), dict(op='iter', spec=s)); out = [-2]
+    add([5, str_], out, dict(op='first', spec=sdesc))
     ctx.count(('first', trlib.to_line(str_)), nontrivial=nontriv, kind='first')
   # valid decisions to work on: next_dna on `nwork` of them, corruptions on `ncwork` of them
   if valid_sds is not None and len(valid_sds) <= P['nwork']:
@@ -180,8 +198,11 @@ def process_spec(job):
     ctx.count(('norm', trlib.to_line(str_), trlib.to_line(G.sdna_tr(sd))), nontrivial=nontriv, kind='normalize')
     # (2) next_dna (when the whole space was iterated every successor was already compared: only a few more)
     if fin and (L is None or wi < 4):
-      nd = pg.next_dna(d)
-      add([2, str_, G.sdna_tr(sd)], [trlib.opt(None if nd is None else G.dna_to_tree(nd), G.tree_tr)], dict(op='next', spec=sdesc, dna=str(d)))
+      try:
+        nd = pg.next_dna(d); out = [trlib.opt(None if nd is None else G.dna_to_tree(nd), G.tree_tr)]
+      except Exception as e:   # pylint: disable=broad-except
+        ctx.hit('C11/next-raises/%s' % mode_key(s), 'next_dna(%s) raises %s: %s for %s' % (d, type(e).__name__, str(e)[:100], sdesc), dict(op='iter', spec=s)); out = [-2]
+      add([2, str_, G.sdna_tr(sd)], out, dict(op='next', spec=sdesc, dna=str(d)))
       ctx.count(('next', trlib.to_line(str_), trlib.to_line(G.sdna_tr(sd))), nontrivial=nontriv, kind='next')
     # (1) verdicts on the valid DNA itself and on its corruptions
     trees = [('valid', t)] + (G.corruptions(rng, s, sd, limit=P['ncorr']) if wi in cwork else [])
@@ -204,7 +225,11 @@ def process_spec(job):
   if not has_custom:
     for seed_ in range(P['nseeds']):
       rr = RecRandom(seed_ * 7919 + si)
-      rd = pg.random_dna(rr)
+      try:
+        rd = pg.random_dna(rr)
+      except Exception as e:   # pylint: disable=broad-except
+        ctx.hit('C11/random-raises/%s' % mode_key(s), 'random_dna raises %s: %s for %s' % (type(e).__name__, str(e)[:100], sdesc), dict(op='random', spec=s, seed=seed_ * 7919 + si))
+        add([3, str_, rr.log], [-2], dict(op='random', spec=sdesc, seed=seed_)); continue
       add([3, str_, rr.log], [G.tree_tr(G.dna_to_tree(rd)), 0], dict(op='random', spec=sdesc, seed=seed_))
       ctx.count(('random', trlib.to_line(str_), seed_), nontrivial=nontriv, kind='random')
       t = G.dna_to_tree(rd)
@@ -227,8 +252,20 @@ def run_jobs_with(fn, jobs, nproc):
   with mp.get_context('fork').Pool(nproc) as pool:
     return pool.map(fn, jobs, chunksize=max(1, len(jobs) // (nproc * 8)))
 
+def process_spec_safe(job):
+  """An exception escaping the per-spec driver is itself a failing input (the spec is replayable), never a crash of the check."""
+  try:
+    return process_spec(job)
+  except Exception as e:   # pylint: disable=broad-except
+    import traceback
+    rec = Rec()
+    rec.hit('C11/unexpected-exception/%s' % type(e).__name__,
+            'the library raised %s: %s on %s (%s)' % (type(e).__name__, str(e)[:150], G.describe(job[1]), traceback.format_exc().strip().split('\n')[-3].strip()[:120]),
+            dict(op='iter', spec=job[1]))
+    return rec
+
 def run_jobs(jobs, nproc):
-  return run_jobs_with(process_spec, jobs, nproc)
+  return run_jobs_with(process_spec_safe, jobs, nproc)
 
 def run(ctx):
   ctx.build()
@@ -371,7 +408,11 @@ def replay(ctx, rp):
   if c['op'] == 'iter':
     vs = G.all_valid(s)
     from pyglove.core import geno
-    L = list(pg.iter_dna())
+    try:
+      L = list(pg.iter_dna()); pg.first_dna()
+      for sd in vs[:50]: pg.next_dna(G.build_dna(sd))
+    except Exception as e:   # pylint: disable=broad-except
+      print('  still fails: iteration raises', repr(e)[:200]); return False
     sw = geno.Sweeping(); sw.setup(pg); swl = []
     try:
       for _ in range(len(L) + 2): swl.append(sw.propose())
@@ -384,9 +425,12 @@ def replay(ctx, rp):
     v1, e1 = verdict(lambda: pg.validate(dn)); v2, e2 = verdict(lambda: dn2.use_spec(pg))
     oracle_verdict(p, s, sdesc, 'replay', G.dna_to_tree(dn), v1 == 0, v2 == 0, e1, e2, None)
   elif c['op'] == 'random':
-    rd = pg.random_dna(pyrandom.Random(c['seed']))
-    if G.parse_tree(s, G.dna_to_tree(rd)) is None:
-      p.hits.append(('C11/random-nonmember', repr(rd)))
+    try:
+      rd = pg.random_dna(RecRandom(c['seed']))
+      if G.parse_tree(s, G.dna_to_tree(rd)) is None:
+        p.hits.append(('C11/random-nonmember', repr(rd)))
+    except Exception as e:   # pylint: disable=broad-except
+      p.hits.append(('C11/random-raises', repr(e)[:100]))
   for h in p.hits:
     print('  still fails:', h)
   return not p.hits
